@@ -654,7 +654,9 @@ class BuilderAI:
         out = None
         so = g.sig_output or ""
         rule_params = [p for p, t in zip(g.params, g.sig_inputs) if (t or "").endswith("parser::Rule") and p.get("k") == "Binding"]
-        kind = "optional" if so.startswith("core::option::Option<" + PAIR_TY) else ("required" if so.startswith(PAIR_TY) else None)
+        # Option<Pair> / Result<Pair, _>: the child is handed out only when it matches (nothing consumed otherwise); Pair: it must match
+        kind = "optional" if so.startswith(("core::option::Option<" + PAIR_TY, "core::result::Result<" + PAIR_TY)) else \
+            ("required" if so.startswith(PAIR_TY) else None)
         if kind and len(rule_params) == 1:
             rl = rule_params[0]["local"]
             skipping = {"find", "rfind", "skip_while", "take_while", "filter", "filter_map", "find_map", "position", "nth", "skip", "last", "for_each",
